@@ -162,7 +162,8 @@ Fixpoint count (fuel : nat) (x : X) (r : nref) : X * nat :=
 
 (* ------------------------------------------------------------------ building *)
 
-Inductive sobs := OOk | OErrC (e : errc) | OPanic | ONoNode | OCount (n : nat) | OBadReg | OFuel.
+Inductive sobs := OOk | OErrC (e : errc) | OPanic | ONoNode | OCount (n : nat) | OBadReg | OFuel
+                | OData (bs : list N) | OPos (z : Z).    (* what a reader read / where a seek landed *)
 
 Definition res_obs (r : presult) : sobs :=
   match r with
@@ -481,7 +482,10 @@ Inductive sop :=
 | STransform (n : nat) (p : list seg) (repl : nat)
 | SEncode (n : nat)
 | SWalk (n : nat)
-| SCallerWrite (s i : nat) (b : N).
+| SCallerWrite (s i : nat) (b : N)
+| SLargeBytes (n : nat)
+| SReaderRead (r : nat) (k : option nat)
+| SReaderSeek (r : nat) (off : Z) (wh : whence).
 
 Record sstate := { sx : X; sregs : list handle }.
 Definition sinit : sstate := {| sx := (pinit, true); sregs := [] |}.
@@ -559,6 +563,13 @@ Definition sstep (st : sstate) (o : sop) : sstate * sobs :=
       | None => (push x st HNone, OBadReg)
       end
   | SCallerWrite s i b => prim1 (PCallerWrite (reg st s) i b)
+  | SLargeBytes n => prim1 (PLargeBytes (reg st n))
+  | SReaderRead r k =>
+      let '(x1, res) := xs x (PReaderRead (reg st r) k) in
+      (push x1 st HNone, match res with RDone (PAcc (XBytes bs _)) => OData bs | _ => res_obs res end)
+  | SReaderSeek r off wh =>
+      let '(x1, res) := xs x (PReaderSeek (reg st r) off wh) in
+      (push x1 st HNone, match res with RDone (PAcc (XLen z)) => OPos z | _ => res_obs res end)
   end.
 
 (* after every step the harness re-reads every node it holds, each accessor twice: two full dumps
